@@ -1,6 +1,7 @@
 /-
   Driver ops for C15: `validate` — the fragment model's accept/reject decision for a policy against a
-  tiny schema encoding of our own (harness/vh/enc_c15.go): entity type names, actions with appliesTo
+  tiny schema encoding of our own (harness/vh/enc_c15.go): known entity type names (declared + enum), the declared
+  entity types with attribute record type / tag type / parent types, actions with parents, appliesTo
   principal/resource lists and a context record type.  Constructs outside the fragment answer `skip`.
 -/
 import CedarGo.Driver.Ops.Core
@@ -33,15 +34,27 @@ def decSchemaC15 (j : Json) : D SchemaLite := do
   let ets ← (← jArr (← field j "entityTypes")).mapM jHex
   let acts ← (← jArr (← field j "actions")).mapM fun a => do
     let uid ← decUID (← field a "uid")
+    let parents ← (← jArr (fieldOr a "parents" (.arr #[]))).mapM decUID
     match a.getObjVal? "appliesTo" with
-    | .error _ => .ok { uid := uid, appliesTo := none : ActionDecl }
+    | .error _ => .ok { uid := uid, appliesTo := none, parents := parents : ActionDecl }
     | .ok apl => do
       let ps ← (← jArr (← field apl "principals")).mapM jHex
       let rs ← (← jArr (← field apl "resources")).mapM jHex
       match ← decTyC15 (← field apl "context") with
-      | .record attrs => .ok { uid := uid, appliesTo := some (ps, rs, attrs) : ActionDecl }
+      | .record attrs => .ok { uid := uid, appliesTo := some (ps, rs, attrs), parents := parents : ActionDecl }
       | _ => .error "context must be a record type"
-  .ok { entityTypes := ets, actions := acts }
+  -- `schema.Entities`: name, attribute record type, optional tag type, parent types
+  let ents ← (← jArr (fieldOr j "entities" (.arr #[]))).mapM fun e => do
+    let name ← jHex (← field e "name")
+    let attrs ← match ← decTyC15 (← field e "shape") with
+      | .record attrs => .ok attrs
+      | _ => .error "shape must be a record type"
+    let tags ← match e.getObjVal? "tags" with
+      | .error _ => .ok none
+      | .ok t => do .ok (some (← decTyC15 t))
+    let parents ← (← jArr (← field e "parents")).mapM jHex
+    .ok (name, ({ attrs := attrs, tags := tags, parents := parents } : EntityDecl))
+  .ok { entityTypes := ets, actions := acts, entities := ents }
 
 def decPolicyC15 (j : Json) : D Policy := do
   let conds ← (← jArr (← field j "conditions")).mapM fun c => do
